@@ -14,7 +14,7 @@ EXPLANATION = (
     'written next and rejects payloads above the bound; (R5) read_message sizes its buffer from a validated header only; (R6) only slice-based bincode '
     'decoding is used; (R7) no undischarged crate-local panic is reachable from the decoders or from copia delta|patch, and the asserting '
     'with_block_size constructors receive validated values only; (R8) every type crossing a codec implements both Serialize and Deserialize; (R9) in every body of both crates an allocation sized by a field of a decoded value (bincode / ciborium / serde_json / frame header) is dominated by a bound test or validator on that value (min(x, CONST) counts). '
-    '(R10) every loop that fills a buffer from a reader in the decoders and CLI file readers leaves on the 0-byte outcome of the read (no spin at EOF). New code: a panic-capable site in a function that did not exist at the pinned commit, and surplus assertions that are all debug-only, are NO-VERDICT (unjudged), a site added to an existing function is a violation unless discharged. Two things are decided even there: an index computed from a field of a decoded structure that is never compared with the length of the indexed collection, and a debug assertion that relates two values taken straight from one decoded structure, are violations. Not decided: value-level round-trip equality (serde/bincode/ciborium derive pairs are assumed inverse and to bound their own pre-allocation); hangs inside dependencies.')
+    '(R10) every loop that fills a buffer from a reader in the decoders and CLI file readers leaves on the 0-byte outcome of the read (no spin at EOF). New code: a panic-capable site in a function that did not exist at the pinned commit, and surplus assertions that are all debug-only, are NO-VERDICT (unjudged), a site added to an existing function is a violation unless discharged. Two things are decided even there: an index computed from a field of a decoded structure that is never compared with the length of the indexed collection, and a debug assertion that relates two values taken straight from one decoded structure, are violations. R1 reads a field taken over from a crate constructor (`..Self::new(..)`) as that constructor\'s parameter or constant: a magic / version that is the constructor\'s own constant is not read from the header bytes. Not decided: value-level round-trip equality (serde/bincode/ciborium derive pairs are assumed inverse and to bound their own pre-allocation); hangs inside dependencies.')
 ASSUMPTIONS = ['serde derive + bincode/ciborium encode/decode pairs are mutually inverse and bound their own pre-allocation by the input length']
 
 CODEC_TYPES = {
